@@ -188,12 +188,23 @@ func H_C15_call(nx int, ny int) {
 	xm := c15MakeMods("xm")
 	ym := c15MakeMods("ym")
 	xid, yid := c15Id("x.call"), c15Id("y.call")
-	xsplit, ysplit := verifBool("x.split"), verifBool("y.split")
-	// both call the stage S (possibly aliased); the callee differs in split
-	xc := &Callables{Table: map[string]Callable{"S": &Stage{Id: "S", Split: xsplit}}}
-	yc := &Callables{Table: map[string]Callable{"S": &Stage{Id: "S", Split: ysplit}}}
-	x := &CallStm{Id: xid, DecId: "S", Bindings: xb, Modifiers: xm.m}
-	y := &CallStm{Id: yid, DecId: "S", Bindings: yb, Modifiers: ym.m}
+	// each program declares the stages S and T (split or not, independently);
+	// each call names S, T or a stage that is not declared (possibly under an
+	// alias: the call name is independent of the callee)
+	names := []string{"S", "T", "U"}
+	var xsplit, ysplit [2]bool
+	xc := &Callables{Table: map[string]Callable{}}
+	yc := &Callables{Table: map[string]Callable{}}
+	for i := 0; i < 2; i++ {
+		xsplit[i], ysplit[i] = verifBool("x.split."+names[i]), verifBool("y.split."+names[i])
+		xc.Table[names[i]] = &Stage{Id: names[i], Split: xsplit[i]}
+		yc.Table[names[i]] = &Stage{Id: names[i], Split: ysplit[i]}
+	}
+	xd, yd := verifInt("x.callee"), verifInt("y.callee")
+	verifAssume(verifAll(xd >= 0, xd <= 2, yd >= 0, yd <= 2))
+	xd, yd = verifConcretize(xd), verifConcretize(yd)
+	x := &CallStm{Id: xid, DecId: names[xd], Bindings: xb, Modifiers: xm.m}
+	y := &CallStm{Id: yid, DecId: names[yd], Bindings: yb, Modifiers: ym.m}
 	got := x.EquivalentTo(y, xc, yc)
 	sameBindings := nx == ny
 	if sameBindings {
@@ -207,7 +218,17 @@ func H_C15_call(nx int, ny int) {
 			sameBindings = sameBindings && found
 		}
 	}
-	want := xid == yid && sameBindings && c15ModsSame(xm, ym) && xsplit == ysplit
+	// the callees the two calls actually name
+	sameCallee := false
+	switch {
+	case xd == 2:
+		sameCallee = yd == 2
+	case yd == 2:
+		sameCallee = false
+	default:
+		sameCallee = xsplit[xd] == ysplit[yd]
+	}
+	want := xid == yid && sameBindings && c15ModsSame(xm, ym) && sameCallee
 	verifCover("calls compared")
 	verifAssert(got == want, "calls equivalent iff name, bindings, modifiers and callee agree")
 }
@@ -381,17 +402,17 @@ func H_C03_resolveDisable(n int, mapMode int) {
 	}
 	switch {
 	case !anyTrue && !anyRef:
-		verifAssert(len(got) == 1 && got[0] == prior[0], "C03: a condition that is false for every fork is dropped")
+		verifAssert(len(got) == 1 && got[0] == prior[0], "C01/C03: a condition that is false for every fork is dropped")
 	case !anyFalse && !anyRef:
-		verifAssert(len(got) == 1 && got[0] != prior[0], "C03: a call disabled in every fork is marked always disabled")
+		verifAssert(len(got) == 1 && got[0] != prior[0], "C01/C03: a call disabled in every fork is marked always disabled")
 		if b, ok := got[0].(*BoolExp); ok {
-			verifAssert(b.Value, "C03: the always-disabled marker is the constant true")
+			verifAssert(b.Value, "C01/C03: the always-disabled marker is the constant true")
 		}
 	default:
 		verifCover("run-time disable kept")
-		verifAssert(len(got) == 2 && got[0] == prior[0], "C03: a condition that may be true for some fork is kept for the run-time check")
+		verifAssert(len(got) == 2 && got[0] == prior[0], "C01/C03: a condition that may be true for some fork is kept for the run-time check")
 		if len(got) == 2 && n > 1 {
-			verifAssert(got[1] == Exp(split), "C03: the kept condition is the per-fork expression itself")
+			verifAssert(got[1] == Exp(split), "C01/C03: the kept condition is the per-fork expression itself")
 		}
 	}
 }
